@@ -364,7 +364,8 @@ func newWorld(flags Flags) *world {
 		Cost:      graphql.FieldResolverCost(5),
 		Resolve: func(ctx graphql.FieldContext) (interface{}, error) {
 			w.logCall("bump" + argsDump(ctx.Arguments))
-			return ctx.Arguments["by"].(int) + 1, nil
+			by, _ := ctx.Arguments["by"].(int)
+			return by + 1, nil
 		}})
 	cfg.AddMutation("note", &graphql.FieldDefinition{Type: graphql.StringType,
 		Arguments: map[string]*graphql.InputValueDefinition{"s": {Type: graphql.StringType, DefaultValue: "none"}, "in": {Type: inType}},
